@@ -213,7 +213,7 @@ func c09Wrap(t smodel.T, inner any) any {
 // renames the argument of the copy.
 func drawC09Veneers(rt *rapid.T, sc schemaCase) ([]string, map[string]string) {
 	m := sc.Model
-	copies := map[string]string{} // "Def.field" -> name of the copy
+	copies := map[string]string{}  // "Def.field" -> name of the copy
 	rules := map[string][]string{} // per package
 	for _, d := range m.Defs {
 		if d.Type.Kind != smodel.KStruct {
